@@ -137,6 +137,7 @@ type Sched struct {
 	opt      Options
 	steps    int
 	aborting bool
+	noYield  bool // set while the scheduler itself calls into instrumented code
 }
 
 // S is the active scheduler (nil when none).
@@ -413,7 +414,9 @@ func (s *Sched) key() uint64 {
 		b.WriteString("|run=" + s.cur.name)
 	}
 	if s.opt.Extra != nil {
+		s.noYield = true
 		b.WriteString("|" + s.opt.Extra())
+		s.noYield = false
 	}
 	return mc.H(b.String())
 }
@@ -579,7 +582,7 @@ func Close[T any](c chan<- T) {
 
 // Yield is a pure scheduling point (statement boundary).
 func Yield() {
-	if !Active() {
+	if !Active() || S.noYield {
 		return
 	}
 	t := S.cur
